@@ -492,6 +492,46 @@ def check_entry_points(F, rep):
             ls = lits(b["body"], ("str",))
             ok = "missing_field" in names and ls == ["alpha"] and "unwrap_or_else" not in names and "unwrap_or" not in names and "unwrap_or_default" not in names
             rep.ob("SER-3", "%s::deserialize" % adt.split("::")[-1], ok, "alpha required: None -> missing_field(%s)" % ls, F.loc(b))
+            # the value is ASSEMBLED from the two deserialised parts and nothing else: one struct literal { color, alpha } whose colour is the
+            # result of `C::deserialize(AlphaDeserializer { .. })` and whose alpha is the captured alpha; no constructor or arithmetic in between
+            # (`PreAlpha::new` premultiplies: stored premultiplied components would be multiplied by alpha again)
+            lits_ = [nd for nd, _p in facts.walk(b["body"]) if nd.get("k") == "struct" and set(n_ for n_, _v in nd.get("f", [])) == {"color", "alpha"}]
+            problems = []
+            if len(lits_) != 1:
+                problems.append("expected exactly one `Self { color, alpha }` literal, found %d" % len(lits_))
+            else:
+                f = struct_lit_fields(lits_[0])
+                col = _resolve(f["color"])
+                # colour: local bound from the `?` of the deserialize call, or that call itself
+                def from_deser(e, depth=0):
+                    e = strip(e)
+                    if depth > 6 or not isinstance(e, dict):
+                        return False
+                    if e.get("k") in ("try", "match") and isinstance(e.get("e"), dict):
+                        return from_deser(e["e"], depth + 1)
+                    if e.get("k") in ("call", "mcall"):
+                        c = e.get("c") if isinstance(e.get("c"), dict) else {}
+                        nm = c.get("n") or e.get("n")
+                        if nm == "deserialize":
+                            return True
+                        if nm in ("branch", "into_iter") and e.get("a"):
+                            return from_deser(e["a"][0], depth + 1)
+                    if e.get("k") == "path" and e["res"].get("k") == "local":
+                        fl = _FLOW["cur"]
+                        bnd = fl.bind.get(e["res"]["h"]) if fl is not None else None
+                        return bnd is not None and from_deser(bnd, depth + 1)
+                    return False
+                if not from_deser(f["color"]):
+                    problems.append("the colour field is not the value returned by `C::deserialize(AlphaDeserializer { .. })`")
+                al = strip(f["alpha"])
+                if not (al.get("k") == "path" and al["res"].get("k") == "local"):
+                    problems.append("the alpha field is not the captured alpha")
+            bad_calls = sorted({c for c, nd in calls(b["body"]) if c in ("new", "new_const", "premultiply", "unpremultiply", "from_components", "into_components")
+                                or re.search(r"(premultiply|::new)$", str(F.cpath(nd) or ""))})
+            if bad_calls:
+                problems.append("calls %s while assembling the value (a constructor of PreAlpha / a premultiplication changes the stored components)" % bad_calls)
+            rep.ob("SER-3", "%s::deserialize assembles" % adt.split("::")[-1], not problems, "; ".join(problems) if problems else
+                   "Ok(Self { color: <deserialised colour>, alpha: <captured alpha> }) and no constructor / premultiplication", F.loc(b))
     rep.floor("Alpha/PreAlpha serde impls", n, 4)
     for fn, what in (("serde::deserialize_with_optional_alpha", "Alpha"), ("serde::deserialize_with_optional_pre_alpha", "PreAlpha")):
         b = F.fn(fn)
